@@ -28,7 +28,8 @@ def main():
 
     import felupe  # noqa: F401  (asserted to come from /repo/src)
 
-    assert os.path.realpath(felupe.__file__).startswith("/repo/src/"), felupe.__file__
+    src = os.path.realpath(os.environ.get("FESIM_REPO_SRC", "/repo/src"))
+    assert os.path.realpath(felupe.__file__).startswith(src + "/"), (felupe.__file__, src)
     warnings.simplefilter("ignore")
 
     from . import kernel
